@@ -113,6 +113,15 @@ func zvC20Alphabet(addPath bool) []zvC20Msg {
 				}
 			}
 		}
+		// the same prefix (and path identifier) announced and withdrawn in one message: RFC 4271 section 4.3 - to be
+		// treated as though the withdrawn routes did not contain it - "in IPv4 and multiprotocol encodings alike"
+		{
+			m := zvC20Msg{Fam: fam, Announce: []int{0}, Withdraw: []int{0}, MED: 5}
+			if addPath {
+				m.AnnIDs, m.WdIDs = []uint32{1}, []uint32{1}
+			}
+			ms = append(ms, m)
+		}
 		// pure withdrawals
 		for _, wd := range [][]int{{0}, {0, 1}, {2}} {
 			idVariants := [][]uint32{nil}
@@ -342,7 +351,7 @@ func TestVerifC20(t *testing.T) {
 	if r.Thorough() {
 		depth = 3
 	}
-	r.Rule(fmt.Sprintf("BFS to depth %d over an alphabet of valid UPDATEs (1-3 NLRI incl. a repeated prefix, 0-2 withdrawals, classic IPv4 and MP IPv6, distinct/equal/permuted path identifiers with add-path) per session configuration "+
+	r.Rule(fmt.Sprintf("BFS to depth %d over an alphabet of valid UPDATEs (1-3 NLRI incl. a repeated prefix, 0-2 withdrawals, a prefix announced and withdrawn in one message, classic IPv4 and MP IPv6, distinct/equal/permuted path identifiers with add-path) per session configuration "+
 		"{add-path RX on/off} x {IPv4 only, IPv4+IPv6} on an external session, plus two internal sessions (LOCAL_PREF sent by the peer); after every message Adj-RIB-In == map model keyed (family, prefix, path id)", depth))
 	r.Require("multi_nlri_announce", "withdraw", "multiprotocol")
 	cfgs := []zvC20Cfg{{"v4v6", false, true, false}, {"v4v6-addpath", true, true, false}, {"v4only", false, false, false}, {"v4only-addpath", true, false, false},
